@@ -126,7 +126,7 @@ def build(sp, kind, variant, max_iter, npseed):
         Bm = vec(m * n).reshape(m, n)
         A = sp.linop.MatMul([n, 1], Bm)
         y = vec(m)
-        mode = variant % 4
+        mode = variant % 6
         x = np.zeros((n, 1), dtype=dt)
         u = np.zeros((m, 1), dtype=dt)
         tau = sigma = 0.01
@@ -145,6 +145,15 @@ def build(sp, kind, variant, max_iter, npseed):
             lam = 0.3
             s = np.linalg.norm(Bm, 2)
             tau, sigma = 0.5 / s, 1.0 / s
+        elif mode in (4, 5):
+            # array-valued dual step (per-sample weights).  mode 5: one weight is exactly 0 -- the residual (u - u_old) / sigma**0.5 then has
+            # a 0/0 entry and is NaN: `resid <= tol` is False, the solver must run on to max_iter (it is NOT at a fixed point)
+            lam = 0.3
+            s = np.linalg.norm(Bm, 2)
+            tau = 0.5 / s
+            sigma = (np.arange(1, m + 1, dtype=float).reshape(m, 1) / m) / s
+            if mode == 5:
+                sigma[rng.randrange(m), 0] = 0.0
         proxfc = sp.prox.L2Reg([m, 1], 1, y=-y)
         proxg = sp.prox.L1Reg([n, 1], lam)
         alg = sp.alg.PrimalDualHybridGradient(proxfc, proxg, A, A.H, x, u, tau, sigma, gamma_primal=gp, gamma_dual=gd,
@@ -506,7 +515,7 @@ def run(ctx):
             rec.update(extra or {})
             ctx.violation("%s: %s" % (kind, msg), rec, signature=full)
 
-    variants = ctx.n(4, 24)
+    variants = ctx.n(6, 24)
     for kind in KINDS:
         for max_iter in range(0, 7):
             for variant in range(variants):
